@@ -46,7 +46,7 @@ Definition next_item (s : st) : option (item * st) :=
 Definition num_segments (b : N) (d : dg) : N :=
   match seg d with
   | None => 1
-  | Some ss => b / ss
+  | Some ss => N.max (b / ss) 1
   end.
 
 Definition slot_of (it : item) (piece : dg) : slot :=
@@ -83,7 +83,7 @@ Fixpoint poll_loop (fuel : nat) (s : st) (bufs : list N) (acc : list slot) : st 
                                   | _ :: _ => Some (mkItem (src it) rest)
                                   end) (chan s1) (closed s1) (wk s1) in
                   if b <? len (contents piece)
-                  then finish s2 acc false
+                  then poll_loop f s2 (b :: bs) acc
                   else poll_loop f s2 bs (acc ++ [slot_of it piece])
               | _ => (s, Stuck, false)
               end
@@ -242,6 +242,23 @@ Fixpoint mon (B : N) (evs : list ev) (os : list obs) (arrived delivered : list t
   | _, _ => false
   end.
 
+(* ---- vocabulary of the theorems (Props/C17.v) ---- *)
+(* state after a history *)
+Fixpoint final (s : st) (evs : list ev) : st :=
+  match evs with
+  | [] => s
+  | e :: evs' => final (fst (step s e)) evs'
+  end.
+(* every datagram handed to QUIC during a history, in order *)
+Definition delivered_of (os : list obs) : list tdg :=
+  flat_map (fun o => match o with OPoll (Ready sl) _ _ => flat_map slot_dgs sl | _ => [] end) os.
+(* every datagram that arrived during a history, in order *)
+Definition arrivals_of (evs : list ev) : list tdg :=
+  flat_map (fun e => match e with Arrive it => item_dgs it | _ => [] end) evs.
+(* the datagrams still held by the transport: pending item first, then the queue *)
+Definition queue_dgs (s : st) : list tdg :=
+  (match pending s with Some it => item_dgs it | None => [] end) ++ flat_map item_dgs (chan s).
+
 Definition wf_dg (d : dg) : bool :=
   match seg d with None => true | Some ss => (1 <=? ss) && (ss <=? U16_MAX) end.
 Definition wf_ev (e : ev) : bool := match e with Arrive it => wf_dg (dgs it) | _ => true end.
@@ -250,7 +267,7 @@ Definition monitor (i : input) (o : output) : bool :=
   if negb (forallb wf_ev i) then true else
   match uniform i with
   | None => true
-  | Some B => mon B i o [] [] false
+  | Some B => if U64_MAX <? B then true (* buffer lengths are usize *) else mon B i o [] [] false
   end.
 
 Definition known (i : input) : N := 0.
